@@ -160,6 +160,10 @@ func genCorpus(r *rng.R, n int) []Doc {
 		if r.Chance(3, 4) {
 			d.G = rng.Pick(r, gVals)
 		}
+		if r.Chance(3, 4) { // small integers: the float64 arithmetic of the aggregation is exact
+			v := int64(rng.Pick(r, []int{-7, -1, 0, 1, 2, 2, 5, 5, 13, 40}))
+			d.V = &v
+		}
 		docs = append(docs, d)
 	}
 	return docs
@@ -282,13 +286,142 @@ func genDupes(r *rng.R) int {
 
 var fpis = []int{0, 1, 1, 2, 3}
 
+// genAggReqs: requests with a field aggregation (sum/min/max/avg of v group by g), mostly over everything.
+func genAggReqs(r *rng.R, docs []Doc, n int) []*Spec {
+	reqs := make([]*Spec, n)
+	for j := range reqs {
+		p := genParams(r, docs)
+		p.Agg = false
+		if r.Chance(2, 3) {
+			p.From, p.To = 0, 5000
+		}
+		if r.Chance(1, 2) {
+			p.Match, p.Not = append([]string{}, kVals...), false
+		}
+		reqs[j] = &Spec{P: p, FPI: rng.Pick(r, []int{0, 1, 2, 0, 1, 2, 3}), Func: rng.Pick(r, aggFuncs)}
+	}
+	return reqs
+}
+
+// genSplitGroupLayout: documents and a time-contiguous layout in which the newer part of one group holds only
+// documents WITHOUT the field v while the older part has values (or the other way round): the partial
+// container merged first is empty but counts NotExists.
+func genSplitGroupLayout(r *rng.R) ([]Doc, [][]Doc) {
+	docs := genCorpus(r, r.Range(6, 20))
+	g := rng.Pick(r, gVals)
+	cut := uint64(baseMID)
+	for _, d := range docs {
+		cut = max(cut, d.MID)
+	}
+	cut = baseMID + (cut-baseMID+1)/2
+	newerWithout := r.Bool()
+	for i := range docs {
+		if r.Chance(1, 2) {
+			docs[i].G = g
+		}
+		if docs[i].G == g {
+			if (docs[i].MID >= cut) == newerWithout {
+				docs[i].V = nil
+			} else if docs[i].V == nil {
+				v := int64(rng.Pick(r, []int{-7, 0, 2, 5, 13}))
+				docs[i].V = &v
+			}
+		}
+	}
+	var older, newer []Doc
+	for _, d := range docs {
+		if d.MID >= cut {
+			newer = append(newer, d)
+		} else {
+			older = append(older, d)
+		}
+	}
+	var layout [][]Doc
+	for _, part := range [][]Doc{older, newer} {
+		if len(part) == 0 {
+			continue
+		}
+		if len(part) > 3 && r.Chance(1, 2) { // split the part once more
+			k := r.Range(1, len(part)-1)
+			layout = append(layout, append([]Doc{}, part[:k]...), append([]Doc{}, part[k:]...))
+		} else {
+			layout = append(layout, part)
+		}
+	}
+	rng.Shuffle(r, layout)
+	return docs, layout
+}
+
+func permutations(n int) [][]int {
+	if n == 1 {
+		return [][]int{{0}}
+	}
+	var out [][]int
+	for _, p := range permutations(n - 1) {
+		for i := 0; i <= len(p); i++ {
+			q := append(append(append([]int{}, p[:i]...), n-1), p[i:]...)
+			out = append(out, q)
+		}
+	}
+	return out
+}
+
+// genDown: which replicas refuse the search; at least one replica of every shard stays up.
+func genDown(r *rng.R, shards [][][][]Doc) [][]bool {
+	down := make([][]bool, len(shards))
+	for si, reps := range shards {
+		down[si] = make([]bool, len(reps))
+		if r.Chance(1, 2) {
+			up := r.Intn(len(reps))
+			for ri := range reps {
+				down[si][ri] = ri != up && r.Chance(1, 2)
+			}
+		}
+	}
+	return down
+}
+
+func genPerms(r *rng.R, shards [][][][]Doc) [][]int {
+	perm := make([][]int, len(shards))
+	for si, reps := range shards {
+		perm[si] = rng.Pick(r, permutations(len(reps)))
+	}
+	return perm
+}
+
+// genShards distributes docs over ns shards x nr replicas (every replica lays the shard's documents out in
+// its own fractions).
+func genShards(r *rng.R, docs []Doc, ns, nr int) ([][][][]Doc, [][][]bool) {
+	perShard := make([][]Doc, ns)
+	for _, d := range docs {
+		s := r.Intn(ns)
+		perShard[s] = append(perShard[s], d)
+		if ns > 1 && r.Chance(1, 8) { // the same document was also written to another shard
+			s2 := (s + 1 + r.Intn(ns-1)) % ns
+			perShard[s2] = append(perShard[s2], d)
+		}
+	}
+	shards := make([][][][]Doc, ns)
+	rsealed := make([][][]bool, ns)
+	for s := range shards {
+		for k := 0; k < nr; k++ {
+			l := genLayout(r, perShard[s], 3, genDupes(r)/2)
+			shards[s] = append(shards[s], l)
+			rsealed[s] = append(rsealed[s], genSealed(r, len(l)))
+		}
+	}
+	return shards, rsealed
+}
+
 // ---------------------------------------------------------------- the run
 
 func generate(w *casefile.Writer, seed uint64, thorough bool) {
 	r := rng.New(seed)
 	nMerge, nEns, nPage, nFake, nRealLayouts, nRealReqs, nEnvs, nEnvReqs := 1500, 500, 300, 2500, 36, 24, 10, 24
+	nAggReqs, nSplitLayouts, nSplitReqs, nEnvAgg, nEnvDocs, nShufEnvs := 5, 8, 12, 6, 10, 6
 	if thorough {
 		nMerge, nEns, nPage, nFake, nRealLayouts, nRealReqs, nEnvs, nEnvReqs = 20000, 5000, 2000, 40000, 500, 40, 120, 40
+		nAggReqs, nSplitLayouts, nSplitReqs, nEnvAgg, nEnvDocs, nShufEnvs = 8, 150, 16, 12, 20, 80
 	}
 	for i := 0; i < nMerge; i++ {
 		runSpec(w, genMerge(r))
@@ -319,29 +452,18 @@ func generate(w *casefile.Writer, seed uint64, thorough bool) {
 				reqs[j].P.Limit = len(docs) + dupes + r.Intn(3)
 			}
 		}
-		runReal(w, layout, genSealed(r, len(layout)), true, reqs)
+		runReal(w, layout, genSealed(r, len(layout)), true, reqs, genAggReqs(r, docs, nAggReqs))
+	}
+	for i := 0; i < nSplitLayouts; i++ {
+		docs, layout := genSplitGroupLayout(r)
+		runReal(w, layout, genSealed(r, len(layout)), true, nil, genAggReqs(r, docs, nSplitReqs))
 	}
 	for i := 0; i < nEnvs; i++ {
 		docs := genCorpus(r, r.Range(2, 30))
 		ns, nr := rng.Pick(r, []int{1, 2, 2, 3, 3}), r.Range(1, 3)
-		perShard := make([][]Doc, ns)
-		for _, d := range docs {
-			s := r.Intn(ns)
-			perShard[s] = append(perShard[s], d)
-			if ns > 1 && r.Chance(1, 8) { // the same document was also written to another shard
-				s2 := (s + 1 + r.Intn(ns-1)) % ns
-				perShard[s2] = append(perShard[s2], d)
-			}
-		}
-		shards := make([][][][]Doc, ns)
-		rsealed := make([][][]bool, ns)
+		shards, rsealed := genShards(r, docs, ns, nr)
 		fail := make([]int, ns)
 		for s := range shards {
-			for k := 0; k < nr; k++ {
-				l := genLayout(r, perShard[s], 3, genDupes(r)/2)
-				shards[s] = append(shards[s], l)
-				rsealed[s] = append(rsealed[s], genSealed(r, len(l)))
-			}
 			if r.Chance(1, 2) {
 				fail[s] = r.Intn(nr)
 			}
@@ -361,6 +483,49 @@ func generate(w *casefile.Writer, seed uint64, thorough bool) {
 				reqs = append(reqs, &Spec{P: p, Offset: r.Intn(len(docs) + 2), Size: r.Intn(len(docs) + 2)})
 			}
 		}
+		for _, q := range genAggReqs(r, docs, nEnvAgg) {
+			q.Kind = "aggproxy"
+			reqs = append(reqs, q)
+		}
+		shuffleOK := ns <= 2 || nr <= 2 // the wanted order of every shard is drawn within a few dozen attempts
+		for j := 0; j < nEnvDocs; j++ {
+			p := genParams(r, docs)
+			p.Limit, p.Agg = 0, false
+			q := &Spec{Kind: "proxydocs", P: p, Offset: r.Intn(len(docs)/2 + 1), Size: r.Range(1, len(docs)+1)}
+			if shuffleOK && j%2 == 1 {
+				q.Shuffle, q.Down, q.Perm = true, genDown(r, shards), genPerms(r, shards)
+			}
+			reqs = append(reqs, q)
+		}
 		runProxy(w, shards, rsealed, fail, fpi, reqs)
+	}
+	// ShuffleReplicas: one or two shards, 2..3 replicas, EVERY order in which the replicas of the first shard
+	// can be asked, with and without replicas that refuse
+	for i := 0; i < nShufEnvs; i++ {
+		docs := genCorpus(r, r.Range(3, 16))
+		ns, nr := rng.Pick(r, []int{1, 1, 2}), rng.Pick(r, []int{2, 3, 3})
+		shards, rsealed := genShards(r, docs, ns, nr)
+		fpi := rng.Pick(r, fpis)
+		var reqs []*Spec
+		for _, pm := range permutations(nr) {
+			for j := 0; j < 2; j++ {
+				p := genParams(r, docs)
+				p.Limit, p.Agg = 0, false
+				if j == 0 {
+					p.From, p.To = 0, 5000
+				}
+				q := &Spec{Kind: "proxydocs", P: p, Offset: r.Intn(3), Size: r.Range(1, len(docs)+1), Shuffle: true,
+					Down: genDown(r, shards), Perm: genPerms(r, shards)}
+				if j == 0 {
+					q.Down = make([][]bool, ns)
+					for s := range q.Down {
+						q.Down[s] = make([]bool, nr)
+					}
+				}
+				q.Perm[0] = pm
+				reqs = append(reqs, q)
+			}
+		}
+		runProxy(w, shards, rsealed, make([]int, ns), fpi, reqs)
 	}
 }
